@@ -138,13 +138,14 @@ func check(c Case) error {
 			}()
 		}
 	}()
-	for _, r := range rotations(c) {
+	for ri, r := range rotations(c) {
 		if c.Circular && exclude && refclone.InDoublingLossZone(want, L.N, c.Enzyme, len(c.Enzyme.Site), r) {
 			vk.CountExcluded("rotation needs a site occurrence outside the doubled stored sequence (K-C10-1)")
 			continue
 		}
 		rot := c.Seq[r:] + c.Seq[:r]
 		in := applyCase(rot, c.CaseMask)
+		nearest(c, in, ri)
 		got, err := cut(c, in)
 		if err != nil {
 			return err
@@ -187,6 +188,31 @@ func check(c Case) error {
 		vk.Count("other strand's layout outside the domain (not judged): "+LO.Why, 1)
 	}
 	return nil
+}
+
+// nearest makes the call that directly precedes a judged one a call that differs from it in a single argument - which
+// argument changes from one judged call to the next: the directional flag, the topology, the enzyme's reach, the
+// enzyme. The result is discarded; such a layout need not be in the domain, so whatever happens to it is not judged.
+func nearest(c Case, in string, k int) {
+	defer func() { _ = recover() }()
+	o := c
+	o.ByName = false
+	switch (k + len(c.Seq)) % 4 {
+	case 0:
+		if c.ByName {
+			_, _ = clone.CutWithEnzymeByName(clone.Part{Sequence: in, Circular: c.Circular}, false, c.Enzyme.Name)
+		} else {
+			_ = clone.CutWithEnzyme(clone.Part{Sequence: in, Circular: c.Circular}, false, polyEnzyme(c.Enzyme))
+		}
+		return
+	case 1:
+		o.Circular = !c.Circular
+	case 2:
+		o.Enzyme = refclone.Enzyme{Name: "custom", Site: c.Enzyme.Site, Skip: c.Enzyme.Skip + 1, OverhangLen: c.Enzyme.OverhangLen}
+	case 3:
+		o.Enzyme = refclone.Enzyme{Name: "custom", Site: c.Enzyme.Site, Skip: c.Enzyme.Skip, OverhangLen: 1 + c.Enzyme.OverhangLen%6}
+	}
+	_, _ = cut(o, in)
 }
 
 func straddles(L refclone.Layout, e refclone.Enzyme, r int) bool {
